@@ -185,12 +185,19 @@ Definition set_fseq (x : apu) (v : N) : apu := mkApu (attached x) (ch1 x) (sw1 x
 (* ------------------------------------------------------------------------------------------------- *)
 (* constants of audio.go *)
 Definition frameSeqPeriod : N := 8192.      (* 4194304 / 512 *)
+Definition frameSeqMask : N := 8191.       (* frameSeqPeriod - 1 *)
 Definition samplerPeriod : N := 95.         (* 4194304 / 44100, integer division *)
 Definition ticksPerSecond : N := 4194304.
 Definition two64 : N := 18446744073709551616.
 
 Definition sample_den : N := 6400.
 Definition sample_pair : Type := (N * N)%type.   (* (left, right) numerators over sample_den *)
+
+(* x-- and x++ on a value that already is a uint16 / uint32 / uint8 (every field holding one is only ever
+   assigned wrapped values): the wrap-around written as a comparison instead of a modulo, for speed *)
+Definition dec16 (x : N) : N := if x =? 0 then 65535 else N.pred x.
+Definition dec32 (x : N) : N := if x =? 0 then 4294967295 else N.pred x.
+Definition inc8 (x : N) : N := if x =? 255 then 0 else N.succ x.
 
 (* ------------------------------------------------------------------------------------------------- *)
 (* square.go *)
@@ -234,7 +241,7 @@ Definition sq_tick_timer (c : square) : square :=
            then set_sqDutyIdx (set_sqTimer c (sq_period c))
                   (let i := add8 (sqDutyIdx c) 1 in if 8 <=? i then 0 else i)
            else c in
-  set_sqTimer c (sub16 (sqTimer c) 1).
+  set_sqTimer c (dec16 (sqTimer c)).
 
 Definition sq_tick_length (c : square) : square :=
   if sqLenEn c then
@@ -324,8 +331,8 @@ Definition wv_tick_timer (w : wave) : wave :=
                let w := set_wvSampleBuf w (if p mod 2 =? 0 then N.shiftr b 4 else N.land b 15) in
                set_wvSampleTimer w 0
              else w in
-    let w := set_wvTimer w (sub16 (wvTimer w) 1) in
-    set_wvSampleTimer w (add8 (wvSampleTimer w) 1)
+    let w := set_wvTimer w (dec16 (wvTimer w)) in
+    set_wvSampleTimer w (inc8 (wvSampleTimer w))
   else w.
 
 Definition wv_tick_length (w : wave) : wave :=
@@ -370,7 +377,7 @@ Definition ns_tick_timer (n : noise) : noise :=
   let n := if nsTimer n =? 0
            then set_nsLfsr (set_nsTimer n (ns_period n)) (lfsr_step (nsWidth n) (nsLfsr n))
            else n in
-  set_nsTimer n (if nsTimer n =? 0 then 4294967295 else N.pred (nsTimer n)).
+  set_nsTimer n (dec32 (nsTimer n)).
 
 Definition ns_tick_length (n : noise) : noise :=
   if nsLenEn n then
@@ -444,7 +451,9 @@ Definition tick_frame_sequencer (s : apu) : apu :=
 Definition apu_tick_clock (s : apu) : apu * list sample_pair :=
   let s := if ticksPerSecond <? ticks s then set_ticks s 1 else s in
   let s := tick_timers s in
-  let s := if ticks s mod frameSeqPeriod =? 0
+  (* a.ticks%frameSeqPeriod == 0 with frameSeqPeriod = 8192 = 2^13, computed as a mask (ApuLemmas.fs_hit_mod
+     proves the two equal); a.ticks%samplerPeriod below is a genuine division *)
+  let s := if N.land (ticks s) frameSeqMask =? 0
            then let s := tick_frame_sequencer s in
                 if 512 <=? fseq s then set_fseq s 0 else s
            else s in
@@ -514,21 +523,40 @@ Definition WriteNR13 (s : apu) (v : N) : apu :=
   else s.
 Definition ReadNR13 (s : apu) : N := 0xff.
 
-(* the length part shared by the four NRx4 handlers, before the trigger *)
+(* The length part of the NRx4 handlers (the Go code repeats it in each handler):
+   [sq_extra_len]  - enabling length in the first half of a length period clocks the counter once;
+   [sq_trig_len]   - a trigger that reloaded the counter to 64 in the first half with length enabled makes it 63 *)
+Definition sq_extra_len (c : square) (lenEn trigger odd : bool) : square :=
+  if negb (sqLenEn c) && lenEn && (0 <? sqLength c) && odd then
+    let c := set_sqLength c (sub8 (sqLength c) 1) in
+    if (sqLength c =? 0) && negb trigger then set_sqEnabled c false else c
+  else c.
+Definition sq_trig_len (c : square) (lenEn odd : bool) : square :=
+  if lenEn && (sqLength c =? 64) && odd then set_sqLength c (sub8 (sqLength c) 1) else c.
+Definition wv_extra_len (w : wave) (lenEn trigger odd : bool) : wave :=
+  if negb (wvLenEn w) && lenEn && (0 <? wvLength w) && odd then
+    let w := set_wvLength w (sub16 (wvLength w) 1) in
+    if (wvLength w =? 0) && negb trigger then set_wvEnabled w false else w
+  else w.
+Definition wv_trig_len (w : wave) (lenEn odd : bool) : wave :=
+  if lenEn && (wvLength w =? 256) && odd then set_wvLength w (sub16 (wvLength w) 1) else w.
+Definition ns_extra_len (n : noise) (lenEn trigger odd : bool) : noise :=
+  if negb (nsLenEn n) && lenEn && (0 <? nsLength n) && odd then
+    let n := set_nsLength n (sub8 (nsLength n) 1) in
+    if (nsLength n =? 0) && negb trigger then set_nsEnabled n false else n
+  else n.
+Definition ns_trig_len (n : noise) (lenEn odd : bool) : noise :=
+  if lenEn && (nsLength n =? 64) && odd then set_nsLength n (sub8 (nsLength n) 1) else n.
+
 Definition WriteNR14 (s : apu) (v : N) : apu :=
   if ctOn (ctl s) then
     let c := ch1 s in
     let c := set_sqFreq c (N.lor (N.land (sqFreq c) 0x00ff) (N.shiftl (N.land v 7) 8)) in
     let trigger := 0 <? N.land (N.shiftr v 7) 1 in
     let lenEn := 0 <? N.land (N.shiftr v 6) 1 in
-    let c := if negb (sqLenEn c) && lenEn && (0 <? sqLength c) && odd_seq s then
-               let c := set_sqLength c (sub8 (sqLength c) 1) in
-               if (sqLength c =? 0) && negb trigger then set_sqEnabled c false else c
-             else c in
+    let c := sq_extra_len c lenEn trigger (odd_seq s) in
     let cw := if trigger then
-                let cw := ch1_trigger c (sw1 s) in
-                let c := fst cw in
-                (if lenEn && (sqLength c =? 64) && odd_seq s then set_sqLength c (sub8 (sqLength c) 1) else c, snd cw)
+                let cw := ch1_trigger c (sw1 s) in (sq_trig_len (fst cw) lenEn (odd_seq s), snd cw)
               else (c, sw1 s) in
     set_sw1 (set_ch1 s (set_sqLenEn (fst cw) lenEn)) (snd cw)
   else s.
@@ -556,14 +584,8 @@ Definition WriteNR24 (s : apu) (v : N) : apu :=
     let c := set_sqFreq c (N.lor (N.land (sqFreq c) 0x00ff) (N.shiftl (N.land v 7) 8)) in
     let trigger := 0 <? N.land (N.shiftr v 7) 1 in
     let lenEn := 0 <? N.land (N.shiftr v 6) 1 in
-    let c := if negb (sqLenEn c) && lenEn && (0 <? sqLength c) && odd_seq s then
-               let c := set_sqLength c (sub8 (sqLength c) 1) in
-               if (sqLength c =? 0) && negb trigger then set_sqEnabled c false else c
-             else c in
-    let c := if trigger then
-               let c := ch2_trigger c in
-               if lenEn && (sqLength c =? 64) && odd_seq s then set_sqLength c (sub8 (sqLength c) 1) else c
-             else c in
+    let c := sq_extra_len c lenEn trigger (odd_seq s) in
+    let c := if trigger then sq_trig_len (ch2_trigger c) lenEn (odd_seq s) else c in
     set_ch2 s (set_sqLenEn c lenEn)
   else s.
 Definition ReadNR24 (s : apu) : N := if sqLenEn (ch2 s) then 0xff else 0xbf.
@@ -594,14 +616,8 @@ Definition WriteNR34 (s : apu) (v : N) : apu :=
     let w := set_wvFreq w (N.lor (N.land (wvFreq w) 0x00ff) (N.shiftl (N.land v 7) 8)) in
     let trigger := 0 <? N.land (N.shiftr v 7) 1 in
     let lenEn := 0 <? N.land (N.shiftr v 6) 1 in
-    let w := if negb (wvLenEn w) && lenEn && (0 <? wvLength w) && odd_seq s then
-               let w := set_wvLength w (sub16 (wvLength w) 1) in
-               if (wvLength w =? 0) && negb trigger then set_wvEnabled w false else w
-             else w in
-    let w := if trigger then
-               let w := wv_trigger w in
-               if lenEn && (wvLength w =? 256) && odd_seq s then set_wvLength w (sub16 (wvLength w) 1) else w
-             else w in
+    let w := wv_extra_len w lenEn trigger (odd_seq s) in
+    let w := if trigger then wv_trig_len (wv_trigger w) lenEn (odd_seq s) else w in
     set_ch3 s (set_wvLenEn w lenEn)
   else s.
 Definition ReadNR34 (s : apu) : N := if wvLenEn (ch3 s) then 0xff else 0xbf.
@@ -636,14 +652,8 @@ Definition WriteNR44 (s : apu) (v : N) : apu :=
     let n := ch4 s in
     let trigger := 0 <? N.land (N.shiftr v 7) 1 in
     let lenEn := 0 <? N.land (N.shiftr v 6) 1 in
-    let n := if negb (nsLenEn n) && lenEn && (0 <? nsLength n) && odd_seq s then
-               let n := set_nsLength n (sub8 (nsLength n) 1) in
-               if (nsLength n =? 0) && negb trigger then set_nsEnabled n false else n
-             else n in
-    let n := if trigger then
-               let n := ns_trigger n in
-               if lenEn && (nsLength n =? 64) && odd_seq s then set_nsLength n (sub8 (nsLength n) 1) else n
-             else n in
+    let n := ns_extra_len n lenEn trigger (odd_seq s) in
+    let n := if trigger then ns_trig_len (ns_trigger n) lenEn (odd_seq s) else n in
     set_ch4 s (set_nsLenEn n lenEn)
   else s.
 Definition ReadNR44 (s : apu) : N := if nsLenEn (ch4 s) then 0xff else 0xbf.
@@ -770,29 +780,54 @@ Definition apu_init : apu := apu_new true.
 (* ------------------------------------------------------------------------------------------------- *)
 (* mapper.go: routing of FF10-FF3F (addresses outside that range are not the APU's) *)
 
+(* Mapper.Read / Mapper.Write are a Go "switch { case addr == NR10: ... }": sequential tests in source order *)
 Definition apu_bus_read (s : apu) (a : N) : N :=
-  match a with
-  | 0xFF10 => ReadNR10 s | 0xFF11 => ReadNR11 s | 0xFF12 => ReadNR12 s | 0xFF13 => ReadNR13 s
-  | 0xFF14 => ReadNR14 s
-  | 0xFF16 => ReadNR21 s | 0xFF17 => ReadNR22 s | 0xFF18 => ReadNR23 s | 0xFF19 => ReadNR24 s
-  | 0xFF1A => ReadNR30 s | 0xFF1B => ReadNR31 s | 0xFF1C => ReadNR32 s | 0xFF1D => ReadNR33 s
-  | 0xFF1E => ReadNR34 s
-  | 0xFF20 => ReadNR41 s | 0xFF21 => ReadNR42 s | 0xFF22 => ReadNR43 s | 0xFF23 => ReadNR44 s
-  | 0xFF24 => ReadNR50 s | 0xFF25 => ReadNR51 s | 0xFF26 => ReadNR52 s
-  | _ => if a <? 0xFF30 then 0xff else if a <? 0xFF40 then ReadWaveRAM s a else 0xff
-  end.
+  if a =? 0xFF10 then ReadNR10 s else
+  if a =? 0xFF11 then ReadNR11 s else
+  if a =? 0xFF12 then ReadNR12 s else
+  if a =? 0xFF13 then ReadNR13 s else
+  if a =? 0xFF14 then ReadNR14 s else
+  if a =? 0xFF16 then ReadNR21 s else
+  if a =? 0xFF17 then ReadNR22 s else
+  if a =? 0xFF18 then ReadNR23 s else
+  if a =? 0xFF19 then ReadNR24 s else
+  if a =? 0xFF1A then ReadNR30 s else
+  if a =? 0xFF1B then ReadNR31 s else
+  if a =? 0xFF1C then ReadNR32 s else
+  if a =? 0xFF1D then ReadNR33 s else
+  if a =? 0xFF1E then ReadNR34 s else
+  if a =? 0xFF20 then ReadNR41 s else
+  if a =? 0xFF21 then ReadNR42 s else
+  if a =? 0xFF22 then ReadNR43 s else
+  if a =? 0xFF23 then ReadNR44 s else
+  if a =? 0xFF24 then ReadNR50 s else
+  if a =? 0xFF25 then ReadNR51 s else
+  if a =? 0xFF26 then ReadNR52 s else
+  if a <? 0xFF30 then 0xff else if a <? 0xFF40 then ReadWaveRAM s a else 0xff.
 
 Definition apu_bus_write (s : apu) (a v : N) : apu :=
-  match a with
-  | 0xFF10 => WriteNR10 s v | 0xFF11 => WriteNR11 s v | 0xFF12 => WriteNR12 s v | 0xFF13 => WriteNR13 s v
-  | 0xFF14 => WriteNR14 s v
-  | 0xFF16 => WriteNR21 s v | 0xFF17 => WriteNR22 s v | 0xFF18 => WriteNR23 s v | 0xFF19 => WriteNR24 s v
-  | 0xFF1A => WriteNR30 s v | 0xFF1B => WriteNR31 s v | 0xFF1C => WriteNR32 s v | 0xFF1D => WriteNR33 s v
-  | 0xFF1E => WriteNR34 s v
-  | 0xFF20 => WriteNR41 s v | 0xFF21 => WriteNR42 s v | 0xFF22 => WriteNR43 s v | 0xFF23 => WriteNR44 s v
-  | 0xFF24 => WriteNR50 s v | 0xFF25 => WriteNR51 s v | 0xFF26 => WriteNR52 s v
-  | _ => if a <? 0xFF30 then s else if a <? 0xFF40 then WriteWaveRAM s a v else s
-  end.
+  if a =? 0xFF10 then WriteNR10 s v else
+  if a =? 0xFF11 then WriteNR11 s v else
+  if a =? 0xFF12 then WriteNR12 s v else
+  if a =? 0xFF13 then WriteNR13 s v else
+  if a =? 0xFF14 then WriteNR14 s v else
+  if a =? 0xFF16 then WriteNR21 s v else
+  if a =? 0xFF17 then WriteNR22 s v else
+  if a =? 0xFF18 then WriteNR23 s v else
+  if a =? 0xFF19 then WriteNR24 s v else
+  if a =? 0xFF1A then WriteNR30 s v else
+  if a =? 0xFF1B then WriteNR31 s v else
+  if a =? 0xFF1C then WriteNR32 s v else
+  if a =? 0xFF1D then WriteNR33 s v else
+  if a =? 0xFF1E then WriteNR34 s v else
+  if a =? 0xFF20 then WriteNR41 s v else
+  if a =? 0xFF21 then WriteNR42 s v else
+  if a =? 0xFF22 then WriteNR43 s v else
+  if a =? 0xFF23 then WriteNR44 s v else
+  if a =? 0xFF24 then WriteNR50 s v else
+  if a =? 0xFF25 then WriteNR51 s v else
+  if a =? 0xFF26 then WriteNR52 s v else
+  if a <? 0xFF30 then s else if a <? 0xFF40 then WriteWaveRAM s a v else s.
 
 (* the register-level API for the system model: identical to the routed functions on FF10-FF3F *)
 Definition apu_read : apu -> N -> N := apu_bus_read.
